@@ -4,13 +4,13 @@
 package c18ops
 
 import (
-	"sync"
 	"bytes"
 	"crypto/sha1"
 	"encoding/hex"
 	"fmt"
 	"io"
 	"reflect"
+	"sync"
 
 	snes "github.com/alttpo/snes"
 	"github.com/alttpo/snes/asm"
@@ -172,6 +172,7 @@ func (t *sysT) Do(i int) string {
 		return digest(ok, t.log.String(), t.s.GetPC(), n, dump, w24, io1, sz, r3, h3, hw.Dump(0), ok2, rl.buf.String(), rl.reserved, rl.commits)
 	})
 }
+
 type reserveLog struct {
 	buf      bytes.Buffer
 	reserved int
@@ -586,7 +587,7 @@ func (t *romT) Do(i int) string {
 		switch i % 3 {
 		case 0:
 			p := make([]byte, 8)
-			n1, e1 := r.BusReader(uint32(0x007000+t.v)).Read(p) // below $8000: the shared always-error reader
+			n1, e1 := r.BusReader(uint32(0x007000 + t.v)).Read(p) // below $8000: the shared always-error reader
 			n2, e2 := io.ReadFull(r.BusReader(uint32(0x00FFE0+t.v)), p)
 			return digest(n1, e1, n2, e2, p)
 		case 1:
